@@ -95,3 +95,17 @@ def check(ctx):
                 pred_label="edge `stack_size == config().get_stack_size()`")
     ctx.guarded(SI, Call(r"generator::.*::new_opt", transitive=False), other_size, "own-stack-for-other-sizes", "a coroutine with another stack size gets a stack of exactly that size",
                 pred_label="edge `stack_size == config().get_stack_size()` is false")
+    ctx.import_rules("C14", r"^scope/join-after-body$|^scope/drop-joins$|^scope/remainder-parked-before-dtor$")
+    ctx.import_rules("C12", r"^try_read/|^try-read")
+    # Condvar::wait reports the poison exactly as the mutex has it (std semantics): Err(PoisonError(guard)) iff the flag is set
+    CW = "may::sync::condvar::Condvar::wait"
+    PG = r"may::sync::poison::Flag::get"
+    ctx.guarded(CW, Agg(r"(std|core)::result::Result", "Err", transitive=False), call_true(PG), "condvar/wait/poisoned-only-if-flag", "Condvar::wait returns Err(PoisonError) only when the mutex is poisoned",
+                rule="R-EXIT", pred_label="edge `poison.get()` is true")
+    ctx.guarded(CW, Agg(r"(std|core)::result::Result", "Ok", transitive=False), call_false(PG), "condvar/wait/ok-only-if-not-poisoned", "Condvar::wait returns Ok(guard) only when the mutex is not poisoned",
+                rule="R-EXIT", pred_label="edge `poison.get()` is false")
+    f = ctx.fn("R-ENUM", "may::sync::poison::Flag::get", "poison/get-is-failed-nonzero")
+    if f is not None:
+        rv = simplify(trace_local(f, 0))
+        ok = rv[0] == "bin" and rv[1] == "Ne" and is_const(0)(simplify(rv[3])) and is_call_result(A("load"))(simplify(rv[2]))
+        ctx.ob("R-ENUM", "may::sync::poison::Flag::get", "poison/get-is-failed-nonzero", ok, "Flag::get() is `failed.load() != 0`" if ok else "Flag::get() is no longer `failed.load() != 0`", f.where())
